@@ -277,9 +277,19 @@ func (x *Exec) freshResult(st *State, sig *types.Signature, prefix string) (Val,
 func (x *Exec) havocAll(st *State) {
 	x.ensureImmutableHeaps()
 	for name, h := range st.heaps {
-		if x.immutableHeaps[name] || name == "Gf mstate" || strings.HasPrefix(name, "Hf sync.") {
+		if name == "Gf mstate" || strings.HasPrefix(name, "Hf sync.") {
 			// lock ownership is restored by every callee (it releases what it acquires);
 			// the fields of sync objects are not reassigned by callees
+			continue
+		}
+		if x.immutableHeaps[name] {
+			// immutable fields keep their values on every object that existed when the verified
+			// function was entered; objects still under construction here (allocated since entry,
+			// possibly handed to the callee, e.g. to a reflective decoder) are havocked
+			if st.entryNext.S == "" {
+				continue
+			}
+			x.havocYoung(st, name, h)
 			continue
 		}
 		st.heaps[name] = fresh(name, h.Sort)
@@ -287,6 +297,15 @@ func (x *Exec) havocAll(st *State) {
 	}
 	st.ghost["havoc.all"] = mkBool(true)
 	st.bumpNext()
+}
+
+// havocYoung replaces heap name by a fresh one that agrees with h on every
+// reference allocated before the verified function was entered.
+func (x *Exec) havocYoung(st *State, name string, h T) {
+	nh := fresh(name, h.Sort)
+	q := T{quoteSym("q imm r"), SInt}
+	st.heaps[name] = nh
+	st.assume(T{fmt.Sprintf("(forall ((%s Int)) (! (=> (< %s %s) (= (select %s %s) (select %s %s))) :pattern ((select %s %s))))", q.S, q.S, st.entryNext.S, nh.S, q.S, h.S, q.S, nh.S, q.S), SBool})
 }
 
 func (x *Exec) havocCall(st *State, fr *Frame, name string, sig *types.Signature, args []Val, pos token.Pos) Val {
